@@ -187,16 +187,71 @@ def tamper_file(rng, fj, how):
     return fj
 
 
+class _TagList(list):
+    """the scenario's tag list; additionally remembers at which nesting depth a tag was added"""
+
+    def __init__(self, builder):
+        super().__init__()
+        self._b = builder
+
+    def append(self, tag):
+        super().append(tag)
+        self._b.depth_tags.append((self._b.cur_depth, tag))
+
+
+def content_of(fj):
+    """the payload dict a serialised metadata file carries (either format)"""
+    if "signed" in fj:
+        return fj["signed"]
+    return json.loads(base64.b64decode(fj["payload"]))
+
+
+def content_status(d):
+    """'normal': a valid link/layout whose re-serialisation is itself (same content exists in both
+    formats); 'denormal': loads, but the loader normalises it; 'invalid': the loaders reject it"""
+    import attr
+    from in_toto.models.layout import Layout
+    from in_toto.models.link import Link
+    try:
+        t = d.get("_type")
+        d, d0 = copy.deepcopy(d), d          # Layout.read replaces the step dicts of its argument by objects
+        obj = Link.read(d) if t == "link" else Layout.read(d) if t == "layout" else None
+        d = d0
+        if obj is None:
+            return "invalid"
+        obj.validate()
+        back = json.loads(json.dumps(attr.asdict(obj), sort_keys=True))
+    except Exception:  # noqa
+        return "invalid"
+    return "normal" if back == json.loads(json.dumps(d, sort_keys=True)) else "denormal"
+
+
 class Builder:
     def __init__(self, env, rng, opts):
         self.env, self.rng, self.o = env, rng, opts
         self.uid = 0
-        self.tags = []
+        self.tags = _TagList(self)
         self.gpg_left = opts.get("gpg_max", 2)    # gpg key bundles are big and the model's reader is slow on big requests
+        self.depth_tags = []     # (nesting depth, tag): where in the delegation tree a deviation sits
+        self.cur_depth = 0
+        self.specs = []          # per generated file: payload object, signers, tampering (re-rendering, C14)
+        self.last_layout_spec = None
 
     def fresh(self, p):
         self.uid += 1
         return "%s%d" % (p, self.uid)
+
+    def note_spec(self, payload, signers, dsse, fj, tamper=None, two_sigs=False):
+        """remember how a file was made so that it can be re-rendered in the other format"""
+        spec = {"payload": payload, "signers": list(signers), "dsse": bool(dsse), "tamper": tamper,
+                "two_sigs": two_sigs, "edited": None, "pinned": None}
+        if tamper in ("edited", "unknown_field"):
+            spec["edited"] = copy.deepcopy(content_of(fj))
+            st = content_status(spec["edited"])
+            if st != "normal":
+                spec["pinned"] = st        # no 'same content' exists in the other format
+        self.specs.append(spec)
+        return len(self.specs) - 1
 
     def pick_keys(self, n, exclude=()):
         pool = [k for k in self.env.pool if k.keyid not in exclude]
@@ -210,6 +265,7 @@ class Builder:
         """a layout (signed by owners) whose chain turns [mats] into [prods]; returns (file json, tree)"""
         from in_toto.models.layout import Inspection, Layout, Step
         rng = self.rng
+        self.cur_depth = depth
         nsteps = rng.choice(self.o.get("nsteps") or [1, 1, 2, 2, 3]) if depth == 0 else rng.choice([1, 1, 2])
         if self.o.get("allow_empty") and rng.random() < 0.04:
             nsteps = 0
@@ -254,6 +310,7 @@ class Builder:
                     self.add_evidence(tree, depth, name, k, M, P, fkeys, others)
                 else:
                     self.add_evidence(tree, depth, name, k, M, P, fkeys, others, directive=plan[ki])
+                self.cur_depth = depth
             # an unauthorised functionary's link lying around
             if rng.random() < 0.15:
                 stranger = self.pick_keys(1, exclude=[k.keyid for k in fkeys])
@@ -286,7 +343,8 @@ class Builder:
             self.tags.append("boundary:" + expires)
         layout = Layout(steps=steps, inspect=inspections, keys=layout_keys, expires=expires,
                         readme=rng.choice(["", "read me", "é\"\\\n"]))
-        md = make_md(layout, self.dsse() if dsse is None else dsse)
+        is_dsse = self.dsse() if dsse is None else dsse
+        md = make_md(layout, is_dsse)
         signers = list(owners)
         if variant == "unsigned":
             signers = []
@@ -300,6 +358,8 @@ class Builder:
         if variant in ("edited", "sig_nibble"):
             fj = tamper_file(rng, fj, variant)
             self.tags.append("layout_" + variant)
+        self.last_layout_spec = self.note_spec(layout, signers, is_dsse, fj,
+                                               tamper=variant if variant in ("edited", "sig_nibble") else None)
         return fj, tree
 
     def add_evidence(self, tree, depth, step, key, M, P, fkeys, other_steps, directive=None):
@@ -308,8 +368,19 @@ class Builder:
             return self.add_planned(tree, depth, step, key, M, P, fkeys, other_steps, directive)
         if depth < self.o.get("max_depth", 2) and rng.random() < self.o.get("p_sub", 0.12) and key.kind != "gpg":
             variant = rng.choice(LAYOUT_VARIANTS) if self.o.get("deviate", True) and rng.random() < 0.5 else "honest"
-            fj, sub = self.build_layout(depth + 1, M, P, [key], variant=variant, logpath=self.o.get("logpath"))
-            tree["files"]["%s.%s.link" % (step, key.keyid[:8])] = {"json": fj}
+            if self.o.get("sub_variants"):
+                variant = rng.choice(self.o["sub_variants"])
+            sub_owners = [key]
+            if variant == "auth_other_signer":
+                # signed by ANOTHER functionary authorised for the same step, stored under this one's name
+                cand = [k for k in fkeys if k.keyid != key.keyid]
+                variant = "honest"
+                if cand:
+                    sub_owners = [rng.choice(cand)]
+                    self.tags.append("sublayout_auth_other_signer")
+            fj, sub = self.build_layout(depth + 1, M, P, sub_owners, variant=variant, logpath=self.o.get("logpath"))
+            self.cur_depth = depth
+            tree["files"]["%s.%s.link" % (step, key.keyid[:8])] = {"json": fj, "spec": self.last_layout_spec}
             dirname = "%s.%s" % (step, key.keyid[:8])
             r = rng.random()
             if variant == "honest" and self.o.get("deviate", True) and r < 0.08:
@@ -354,7 +425,8 @@ class Builder:
             name = rng.choice(other_steps) if other_steps else step + "x"
         link = Link(name=name, materials=M2, products=P2, command=["build"],
                     byproducts=rng.choice([{}, {"return-value": 0, "stdout": "é\n", "stderr": ""}]))
-        md = make_md(link, self.dsse())
+        is_dsse = self.dsse()
+        md = make_md(link, is_dsse)
         signer = key
         if variant == "wrong_signer":
             cand = self.pick_keys(1, exclude=[key.keyid])
@@ -371,7 +443,7 @@ class Builder:
                     raw[0] ^= 1
                     bad["sig"] = base64.b64encode(bytes(raw)).decode()
             fj["signatures"].insert(0, bad)
-            tree["files"][fname] = {"json": fj}
+            tree["files"][fname] = {"json": fj, "spec": self.note_spec(link, [signer], is_dsse, fj, two_sigs=True)}
             return
         if variant != "unsigned":
             self.env.sign(md, signer)
@@ -381,7 +453,9 @@ class Builder:
         if variant == "other_keyid_name" and len(fkeys) > 1:
             other = rng.choice([k for k in fkeys if k.keyid != key.keyid])
             fname = "%s.%s.link" % (step, other.keyid[:8])
-        tree["files"][fname] = {"json": fj}
+        tree["files"][fname] = {"json": fj, "spec": self.note_spec(
+            link, [] if variant == "unsigned" else [signer], is_dsse, fj,
+            tamper=variant if variant in ("edited", "sig_nibble", "sig_keyid", "sig_nonhex", "unknown_field") else None)}
 
 
     # -- planned steps: gpg functionaries, C05 dissent, invalid links next to enough valid ones ---------
@@ -723,8 +797,70 @@ def build(rng, env, opts, workdir):
     now = NOW_US
     if opts.get("boundary"):
         now = NOW_US + rng.choice([0, 0, -1, 1])
-    return {"root": {"json": root}, "dir": tree, "keys": vkeys, "params": params, "now_us": now,
-            "tags": b.tags, "logpath": logpath}
+    return {"root": {"json": root, "spec": b.last_layout_spec}, "dir": tree, "keys": vkeys, "params": params, "now_us": now,
+            "tags": list(b.tags), "logpath": logpath, "specs": b.specs, "depth_tags": b.depth_tags}
+
+
+# ------------------------------------------------------------------------------------------------
+# re-rendering in the other format (C14)
+def render(env, spec, dsse):
+    """the file a spec describes, materialised as traditional metadata (dsse=False) or as a DSSE
+    envelope (dsse=True): same payload object, re-signed by the same signers, same tampering"""
+    md = make_md(spec["payload"], dsse)
+    for k in spec["signers"]:
+        env.sign(md, k)
+    fj = to_file(md)
+    t = spec["tamper"]
+    if spec["two_sigs"]:
+        bad = copy.deepcopy(fj["signatures"][0])
+        if "signed" in fj:
+            bad["sig"] = ("0" if bad["sig"][0] != "0" else "1") + bad["sig"][1:]
+        else:
+            raw = bytearray(base64.b64decode(bad["sig"]))
+            raw[0] ^= 1
+            bad["sig"] = base64.b64encode(bytes(raw)).decode()
+        fj["signatures"].insert(0, bad)
+    elif t in ("edited", "unknown_field"):
+        if "signed" in fj:
+            fj["signed"] = copy.deepcopy(spec["edited"])
+        else:
+            fj["payload"] = base64.b64encode(json.dumps(spec["edited"], sort_keys=True).encode()).decode()
+    elif t:
+        fj = tamper_file(None, fj, t)
+    return fj
+
+
+def reassign(rng, scen, env, mode="random"):
+    """a copy of the scenario in which every re-renderable file independently gets a format
+    (mode 'random'), or all get traditional ('mb') / DSSE ('dsse') / the opposite of what they have ('flip').
+    Returns (new scenario, {'files':, 'changed':, 'pinned':})"""
+    specs = scen["specs"]
+    st = {"files": 0, "changed": 0, "pinned": 0}
+
+    def one(f):
+        if "spec" not in f or f["spec"] is None or "json" not in f:
+            return dict(f)
+        sp = specs[f["spec"]]
+        st["files"] += 1
+        if sp["pinned"] or any(k.kind == "gpg" for k in sp["signers"]):
+            st["pinned"] += 1
+            return dict(f)
+        was = "payload" in f["json"]
+        want = {"mb": False, "dsse": True, "flip": not was}.get(mode)
+        if want is None:
+            want = rng.random() < 0.5
+        if want == was:
+            return dict(f)
+        st["changed"] += 1
+        return {"json": render(env, sp, want), "spec": f["spec"]}
+
+    def walk(t):
+        return {"files": {n: one(f) for n, f in t["files"].items()},
+                "dirs": {n: walk(s) for n, s in t["dirs"].items()}}
+    new = dict(scen)
+    new["root"] = one(scen["root"])
+    new["dir"] = walk(scen["dir"])
+    return new, st
 
 
 # ------------------------------------------------------------------------------------------------
